@@ -128,3 +128,76 @@ impl Report {
         })
     }
 }
+
+impl Report {
+    /// Merge a worker's sub-report into this one.
+    pub fn merge(&mut self, other: Report) {
+        self.evaluations += other.evaluations;
+        self.distinct.extend(other.distinct);
+        for s in other.samples {
+            self.sample(s);
+        }
+        for (k, v) in other.violation_counts {
+            *self.violation_counts.entry(k).or_default() += v;
+        }
+        for v in other.violations {
+            let kept = self.violations.iter().filter(|x| x.signature == v.signature).count();
+            if kept < 3 && self.violations.len() < 200 {
+                self.violations.push(v);
+            }
+        }
+        for (k, v) in other.inconclusive {
+            *self.inconclusive.entry(k).or_default() += v;
+        }
+        for (k, v) in other.extra {
+            match (self.extra.get(&k).and_then(|x| x.as_u64()), v.as_u64()) {
+                (Some(a), Some(b)) => {
+                    self.extra.insert(k, json!(a + b));
+                }
+                _ => {
+                    self.extra.entry(k).or_insert(v);
+                }
+            }
+        }
+        for a in other.assumptions {
+            if !self.assumptions.contains(&a) {
+                self.assumptions.push(a);
+            }
+        }
+    }
+
+    pub fn child(&self) -> Report {
+        Report::new(&self.property, &self.tier, self.seed)
+    }
+}
+
+/// Run `n` independent work items on `threads` worker threads; each item gets its own
+/// sub-report, which are merged in item order (so the result is independent of scheduling).
+pub fn par_run<F>(report: &mut Report, n: u64, f: F)
+where
+    F: Fn(u64, &mut Report) + Sync,
+{
+    let threads = std::env::var("VERIF_THREADS").ok().and_then(|s| s.parse().ok()).unwrap_or(16usize).max(1);
+    let next = std::sync::atomic::AtomicU64::new(0);
+    let results: std::sync::Mutex<Vec<(u64, Report)>> = std::sync::Mutex::new(Vec::new());
+    std::thread::scope(|s| {
+        for _ in 0..threads {
+            s.spawn(|| {
+                loop {
+                    let i = next.fetch_add(1, std::sync::atomic::Ordering::SeqCst);
+                    if i >= n {
+                        break;
+                    }
+                    let mut sub = report.child();
+                    f(i, &mut sub);
+                    results.lock().unwrap().push((i, sub));
+                }
+            });
+        }
+    });
+    let mut results = results.into_inner().unwrap();
+    results.sort_by_key(|r| r.0);
+    for (_, sub) in results {
+        report.merge(sub);
+    }
+}
